@@ -8,7 +8,7 @@ import { canon } from '../runtime/canon.mjs';
 export const id = 'C03';
 
 export const HOSTS = ['boundImport', 'unbound', 'member', 'memberHtmlName', 'Teleport'];
-export const SHAPES = ['none', 'identBound', 'identUnbound', 'call', 'arrow', 'fnExpr', 'object', 'text', 'element', 'memberExpr', 'cond', 'mixed1', 'mixed2', 'spread', 'spreadCall', 'spreadThenText', 'nestedComp', 'wsOnly', 'elementWithDirective', 'elementWithVModel', 'optMember', 'optMemberDeep', 'template', 'binary', 'newExpr', 'arrayLit', 'logicalOr', 'parenCall', 'awaitLike'];
+export const SHAPES = ['none', 'identBound', 'identUnbound', 'call', 'arrow', 'fnExpr', 'object', 'text', 'element', 'memberExpr', 'cond', 'mixed1', 'mixed2', 'spread', 'spreadCall', 'spreadThenText', 'nestedComp', 'wsOnly', 'elementWithDirective', 'elementWithVModel', 'litNull', 'litFalse', 'litZeroThenText', 'optMember', 'optMemberDeep', 'template', 'binary', 'newExpr', 'arrayLit', 'logicalOr', 'parenCall', 'awaitLike'];
 export const KINDS = ['vnode', 'string', 'array', 'slots', 'slotfn', 'number', 'nullish'];
 export const VSLOTS = ['absent', 'ident', 'objLit'];
 export const CONTEXTS = ['arrowExpr', 'moduleLevel', 'fnBody', 'nestedBlock', 'classMethod', 'arrowInArrow'];
@@ -82,6 +82,9 @@ export function makeKids(b, shape, kind, st = { n: 0 }) {
       const den = { target: b.leaf('kidModel'), host: { isComp: false }, directive: 'vModelText', mods: [], guard: null };
       return [C.el({ tag: { kind: 'html', name: 'input', src: 'input' }, attrs: [A.attr('class', { k: 'leaf', i: b.leaf(`${f}()`), src: `${f}()` }), { t: 'model', den, src: 'v-model={kidModel}' }], children: [], selfClose: true })];
     }
+    case 'litNull': return [{ ...C.expr(b.leaf('null'), 'null'), shape: 'other' }];
+    case 'litFalse': return [{ ...C.expr(b.leaf('false'), 'false'), shape: 'other' }];
+    case 'litZeroThenText': return [{ ...C.expr(b.leaf('0'), '0'), shape: 'other' }, C.text(' z')];
     case 'memberExpr': { const m = b.proxyGlobal(); return [{ ...C.expr(b.leaf(`${m}.kid`), `${m}.kid`), shape: 'other' }]; }
     case 'optMember': { const m = b.proxyGlobal(); return [{ ...C.expr(b.leaf(`${m}?.kid`), `${m}?.kid`), shape: 'other' }]; }
     case 'optMemberDeep': { const m = b.proxyGlobal({ user: { k: 'obj', v: { name: val } } }); return [{ ...C.expr(b.leaf(`${m}.user?.name`), `${m}.user?.name`), shape: 'other' }]; }
